@@ -14,26 +14,27 @@ KNOWN_TEXT = {
     "F3": "specifiers() omits the sources of redirect chains of two or more hops (looks up the raw redirect target)",
     "F10": "resolve_dependency(prefer_types=true) returns None when the dependency-level types target failed although the code module is loaded",
     "F11": "resolve() is not idempotent on a redirect cycle",
+    "F20": "inside a loader-built redirect cycle the member carrying the TooManyRedirects entry depends on which member was requested first",
     "F12": "an entry stored at a specifier that is also a redirect source: the walk yields the entry, lookups follow the redirect",
 }
 
 # events each property needs from the harness, and an estimate of events per case (for budgeting)
 PROPS = {
     "C01": dict(events=None, per_case=0, invariants=["NoPendingInv"]),
-    "C02": dict(events="walk", per_case=80),
-    "C14": dict(events="lookup", per_case=70),
-    "C15": dict(events="walk", per_case=80),
-    "C17": dict(events="prune", per_case=2),
-    "C18": dict(events="segment", per_case=12),
-    "C19": dict(events="incr", per_case=25),
+    "C02": dict(events="walk", per_case=22),
+    "C14": dict(events="lookup", per_case=12),
+    "C15": dict(events="walk", per_case=22),
+    "C17": dict(events="prune", per_case=1),
+    "C18": dict(events="segment", per_case=3),
+    "C19": dict(events="incr,reload", per_case=8),
 }
+CORE = "MC_Core.tla"
+CHAIN = "MC_Chain.tla"
+QUICK = [(CORE, "core_q"), (CORE, "policy_q"), (CORE, "forms_q"), (CORE, "redir_q"), (CORE, "roots_q"), (CORE, "tdep_q"), (CHAIN, "chain_q")]
+THOROUGH = QUICK + [(CORE, "core_t"), (CORE, "redir_t"), (CORE, "roots_t"), (CHAIN, "chain_t")]
 PROFILES = {
-    "quick": {
-        "default": ["core_q"],
-    },
-    "thorough": {
-        "default": ["core_q", "core_t"],
-    },
+    "quick": {"default": QUICK, "C19": QUICK + [(CORE, "hist_q")]},
+    "thorough": {"default": THOROUGH, "C19": THOROUGH + [(CORE, "hist_q"), (CORE, "hist_t")]},
 }
 TRACE_BUDGET = {"quick": 120_000, "thorough": 1_500_000}
 
@@ -56,11 +57,11 @@ def run(prop, tier, seed, replay):
         profiles = PROFILES[tier].get(prop, PROFILES[tier]["default"])
         open(cases_path, "w").close()
         ncases = 0
-        for prof in profiles:
+        for mod, prof in profiles:
             cfg = os.path.join(MC, prof + ".cfg")
             if not os.path.exists(cfg):
                 continue
-            r = P.tlc_mc(os.path.join(MC, "MC_Core.tla"), cfg, work, workers=min(8, P.NCPU),
+            r = P.tlc_mc(os.path.join(MC, mod), cfg, work, workers=min(8, P.NCPU),
                          timeout=1500 if tier == "quick" else 7200)
             if r["errors"]:
                 raise P.ToolError(f"TLC errors in {prof}: {r['errors'][:3]}")
